@@ -622,11 +622,11 @@ def assign_line(name, t, v, prefix="CONFIG_"):
     return "%s%s=%s\n" % (prefix, name, v)
 
 
-def handwritten(r, prog, olds=(), sane=True, maxn=8):
+def handwritten(r, prog, olds=(), sane=True, maxn=8, avoid=()):
     """sdkconfig.defaults-style text: no default markers; duplicates, several
     members of one choice at y, unknown and deprecated names."""
     tab = sym_table(prog)
-    names = list(tab)
+    names = [n for n in tab if n not in avoid]
     lines = []
     if r.random() < 0.3:
         lines.append("# hand-written\n")
